@@ -2,6 +2,7 @@ package main
 
 import (
 	"fmt"
+	"go/types"
 	"go/token"
 	"strings"
 
@@ -25,16 +26,36 @@ func c13extra(p *Program, r *Report, scope []*ssa.Function, inScope map[*ssa.Fun
 			for _, in := range b.Instrs {
 				switch x := in.(type) {
 				case *ssa.Call:
-					if !staticCalleeIs(&x.Call, "github.com/aead/siphash.Sum64") {
+					// a hashing call: the keyed hash itself, or an in-package helper that reaches it, applied to an
+					// element of a list of items
+					isHash := staticCalleeIs(&x.Call, "github.com/aead/siphash.Sum64")
+					if cal := x.Call.StaticCallee(); !isHash && cal != nil && inScope[cal] {
+						for _, g := range p.Reachable([]*ssa.Function{cal}) {
+							for _, gb := range g.Blocks {
+								for _, gi := range gb.Instrs {
+									if gc, ok := gi.(*ssa.Call); ok && staticCalleeIs(&gc.Call, "github.com/aead/siphash.Sum64") {
+										isHash = true
+									}
+								}
+							}
+						}
+					}
+					if !isHash {
 						continue
 					}
-					// item = element of a slice-of-items parameter?
-					ld, ok := x.Call.Args[0].(*ssa.UnOp)
-					if !ok {
-						continue
+					var ia *ssa.IndexAddr
+					for _, a := range x.Call.Args {
+						if ld, ok := a.(*ssa.UnOp); ok {
+							if ia2, ok := ld.X.(*ssa.IndexAddr); ok {
+								if sl, ok := ia2.X.Type().Underlying().(*types.Slice); ok {
+									if _, isSl := sl.Elem().Underlying().(*types.Slice); isSl {
+										ia = ia2
+									}
+								}
+							}
+						}
 					}
-					ia, ok := ld.X.(*ssa.IndexAddr)
-					if !ok {
+					if ia == nil {
 						continue
 					}
 					if _, isParam := ia.X.(*ssa.Parameter); !isParam {
@@ -113,7 +134,7 @@ func c13extra(p *Program, r *Report, scope []*ssa.Function, inScope map[*ssa.Fun
 	if nFresh == 0 {
 		r.Unresolved("C13.fresh", "index map of the hash-based strategy")
 	}
-	r.Floor("C13.every", 3)
+	r.Floor("C13.every", 1)
 	r.Floor("C13.fresh", 1)
 
 	gcsWriterRule(p, r, "C13.writer")
